@@ -278,6 +278,10 @@ func (m *vpC03Model) apply(o vpC03Op) {
 				m.Cands = append(m.Cands, o.Code)
 			} else {
 				m.Cands = append(m.Cands, -1)
+				if m.Stream.Reader == vpC03RdLimited {
+					// unknown size + *io.LimitedReader: the reader's own N is an acceptable Content-Length
+					m.Cands = append(m.Cands, m.Stream.LimitN)
+				}
 			}
 		}
 		m.implSetCL(o.Code)
